@@ -3,6 +3,7 @@ import NGF.Model.Leader
 import NGF.Model.LeaderJudge
 import NGF.Model.LeaderWiring
 import NGF.Model.LeaderWiringJudge
+import NGF.Model.LeaderFaults
 import NGF.Model.Proto
 /-
 Driver entry for C09.
@@ -13,6 +14,10 @@ Driver entry for C09.
                  hop: `u:<g>:<call>:<ret>:<reqs>` | `e:<call>:<ret>:<panicked 0|1>`
                  w  : `<opindex>:<tag>:<stamp>`   (`-` = no writes)
   output     :  `ok` | `fail <clause>`
+  fmodel line:  `bad=<tags> ops=<…>`   the model under scripted failures: `outcome` (every healthy request of a call is
+                                        written) applied to `run init ops`; output as `model`
+  fjudge line:  `bad=<tags> elected=… ops=… writes=…`   `judgeF`: the judge on the history restricted to healthy resources
+  wfjudge line: wjudge JSON with an extra "bad":[[kind,ns,name]…]   `judgeWF`
   wmodel line:  `evs=<step;step;…>`     step: events joined by `+`; event: `B:<all>:<gw>` | `N` | `C:<cp>` | `S:<gw>` |
                                         `E:<order>`   (request lists: interned ids)
   output     :  `groups=<g,g;…> outs=<o;o;…>`  the groups every step submits (`HEv.groups`) and, per UpdateGroup /
@@ -97,6 +102,25 @@ def judgeLine (line : String) : String :=
     | none => "ok"
     | some c => "fail " ++ c
 
+/-! ### scripted API failures -/
+
+def fmodelLine (line : String) : String :=
+  let fs := line.splitOn " "
+  match field fs "bad" >>= parseNatList, field fs "ops" >>= parseOps with
+  | some bad, some ops =>
+    "outs=" ++ (if ops.isEmpty then "-" else
+      ";".intercalate ((run init ops).map fun o => showOut (outcome (fun t => bad.contains t) o)))
+  | _, _ => "bad-op"
+
+def fjudgeLine (line : String) : String :=
+  let fs := line.splitOn " "
+  match field fs "bad" >>= parseNatList, parseHistory line with
+  | some bad, some h =>
+    match judgeF bad h with
+    | none => "ok"
+    | some c => "fail " ++ c
+  | _, _ => "bad-op"
+
 /-! ### wiring stream -/
 
 def parseHEv (s : String) : Option HEv :=
@@ -153,6 +177,24 @@ def wjudgeLine (line : String) : String :=
       | none => "ok"
       | some c => "fail " ++ c
 
+open Lean (Json) in
+def wfjudgeLine (line : String) : String :=
+  match Json.parse line with
+  | .error _ => "bad-op"
+  | .ok j =>
+    match (do
+        let steps ← (← (← j.getObjVal? "steps").getArr?).toList.mapM parseWStep
+        let bad ← (← (← j.getObjVal? "bad").getArr?).toList.mapM fun b => do
+          match (← b.getArr?).toList with
+          | [k, n, m] => pure ((← k.getNat?), (← n.getNat?), (← m.getNat?))
+          | _ => throw "bad"
+        pure (bad, steps) : Except String (List (Nat × Nat × Nat) × List WStep)) with
+    | .error _ => "bad-op"
+    | .ok (bad, steps) =>
+      match judgeWF bad steps with
+      | none => "ok"
+      | some c => "fail " ++ c
+
 def driver (args : List String) : IO UInt32 := do
   let stdin ← IO.getStdin
   let stdout ← IO.getStdout
@@ -161,7 +203,10 @@ def driver (args : List String) : IO UInt32 := do
   | ["judge"] => forEachLine stdin fun l => stdout.putStrLn (judgeLine l)
   | ["wmodel"] => forEachLine stdin fun l => stdout.putStrLn (wmodelLine l)
   | ["wjudge"] => forEachLine stdin fun l => stdout.putStrLn (wjudgeLine l)
-  | _ => IO.eprintln "usage: C09 model|judge|wmodel|wjudge"; return 2
+  | ["fmodel"] => forEachLine stdin fun l => stdout.putStrLn (fmodelLine l)
+  | ["fjudge"] => forEachLine stdin fun l => stdout.putStrLn (fjudgeLine l)
+  | ["wfjudge"] => forEachLine stdin fun l => stdout.putStrLn (wfjudgeLine l)
+  | _ => IO.eprintln "usage: C09 model|judge|wmodel|wjudge|fmodel|fjudge|wfjudge"; return 2
   return 0
 
 end NGF.Leader
